@@ -38,6 +38,7 @@ type World struct {
 	Panics  []string
 	Last    drive.Resp // answer to the most recent request
 	Codes   []int      // status of every request issued by Apply since the caller last reset it
+	Extra   []string   // roots of the extra repos made by "newrepo"
 }
 
 func (w *World) Do(method, url string, body []byte) (drive.Resp, error) {
@@ -194,7 +195,27 @@ func (w *World) Apply(o Op) error {
 		}
 		_, err = w.Post("node/"+u+"/kv/keyvalues", pb)
 	case "newrepo":
-		_, err = w.Post("repos", []byte(fmt.Sprintf(`{"alias":"extra%d","description":"second repo"}`, o.A%3)))
+		var r drive.Resp
+		r, err = w.Post("repos", []byte(fmt.Sprintf(`{"alias":"extra%d","description":"second repo"}`, o.A%3)))
+		if err == nil && r.OK() {
+			var rr struct{ Root string }
+			if json.Unmarshal(r.Body, &rr) == nil && rr.Root != "" {
+				w.Extra = append(w.Extra, rr.Root)
+			}
+		}
+	case "delrepo":
+		// the documented way to delete a repo: RPC command "repos delete <uuid> <passcode>"
+		if len(w.Extra) == 0 {
+			return nil
+		}
+		root := w.Extra[len(w.Extra)-1]
+		if _, e := w.C.RPC("repos", "delete", root, ""); e != nil {
+			if e == drive.ErrChildDied {
+				return e
+			}
+			return nil
+		}
+		w.Extra = w.Extra[:len(w.Extra)-1]
 	case "kvdel":
 		_, err = w.Do("DELETE", fmt.Sprintf("node/%s/kv/key/k%d", u, o.A%6), nil)
 	case "commit":
